@@ -60,3 +60,37 @@ PROPS["C08"] = {
     "level_text": "Ordering: Scalar <, <=, >, >= evaluated through Python's rich-comparison dispatch on the real __lt__/__le__/__gt__/__ge__ bodies are proved equal to the same operator on value(a) and conv(unit(b)->unit(a))(value(b)) for arbitrary registered units of one quantity type, TypeError for different quantity types; with the C01 monotonicity lemma this is the order of physical amounts. Equality totality/symmetry and FractionScalar ordering are not yet under contract.",
     "level_note": "floats are reals; WF/QI assumed for inputs",
 }
+
+
+def VP(fq, n):
+    return [("verify", {"fq": fq, "part": i, "nparts": n}) for i in range(n)]
+
+
+OPS_KEY = SC + "._DoOperation#operators"
+ARITH_TRUSTED = [
+    "z3 5.1.0; cvc5 1.0.3 for z3's unknowns",
+    "pyvc symbolic interpreter for Python semantics (operator dispatch, dict/OrderedDict, deepcopy)",
+    "callee contracts used instead of bodies: UnitDatabase.Convert, UnitDatabase.GetInfo, ObtainQuantity, Quantity.CreateEmpty (each verified against its own body in C01/C02/C07)",
+    "floats as reals (A1); a//b is floor of the real quotient",
+]
+PROPS["C03"] = {
+    "tasks": lambda tier: VP(UDB + ":UnitDatabase.Sum", 3) + VP(UDB + ":UnitDatabase.Subtract", 3) + VP(OPS_KEY, 10) + [("lemma_arith", {})],
+    "level": "proof",
+    "level_text": "UnitDatabase.Sum/Subtract and the Scalar operators + and - (through Python's operator dispatch) are verified against a functional contract for operand quantities that are symbolic in every category, unit, exponent (unbounded integers), caption and value: the result has the left operand's categories and exponents with the matched units, the value is v1 +/- v2 re-expressed by the conversions unit -> matched unit, different dimensions raise. A log-domain lemma over the contract shows the result's base magnitude is the sum/difference of the operands' (hence a+b = b+a and (a+b)-b = a physically). Per shape (number of composing entries per operand: 0, 1, 2; thorough adds more pairs) this is a complete proof; across shapes it is a bound. The case 're-expressed entry with exponent other than 1' is a recorded known finding.",
+    "level_note": "shape-bounded: operands with at most 2 composing entries (quick: 9 shape pairs, thorough: 14); preconditions N1 (a quantity-type name that is also a category names itself) and normalised operands; Array (element by element) is covered in C10; floats are reals",
+    "trusted": ARITH_TRUSTED,
+}
+PROPS["C04"] = {
+    "tasks": lambda tier: VP(UDB + ":UnitDatabase.Multiply", 4) + VP(UDB + ":UnitDatabase.Divide", 5) + VP(UDB + ":UnitDatabase.FloorDivide", 5) + VP(OPS_KEY, 10) + [("lemma_arith", {})],
+    "level": "proof",
+    "level_text": "UnitDatabase.Multiply/Divide/FloorDivide and the Scalar operators *, /, // are verified against a functional contract for symbolic operand quantities (all names, units, unbounded integer exponents and values symbolic): the result's composing map is exactly the merged map (exponents added/subtracted per category, entries with zero exponent or zero joined exponent dropped), its exponent per quantity type is the sum/difference of the operands', no zero exponent survives, the value is v1 op v2 after matching; division by a zero amount raises. Log-domain lemmas over the contract give 'base magnitudes multiply/divide' and the dimension rule for every shape up to (2,2) (thorough (3,3)). The case 're-expressed entry with exponent other than 1' is a recorded known finding. a**n is not yet under contract.",
+    "level_note": "shape-bounded as C03; preconditions N1 and normalised operands; floats are reals; a//b = floor of the real quotient",
+    "trusted": ARITH_TRUSTED,
+}
+PROPS["C09"] = {
+    "tasks": lambda tier: VP(OPS_KEY, 10),
+    "level": "proof",
+    "level_text": "For a Scalar x (simple, derived or empty quantity; thorough adds two-entry derived) and a plain int/float (thorough: numpy float) k, each of k*x, x*k, x/k, x//k, x+k, k+x, x-k, k-x, evaluated through Python's binary-operator dispatch on the real __op__/__rop__/_DoOperation bodies, is proved to return a new Scalar holding x's own quantity object and the operation applied to the value; k/x and k//x are proved to go through the database division with the empty quantity (reciprocal exponents, value k/x). Array operands and numpy-array k are not yet under contract.",
+    "level_note": "Scalar only (Array/numpy dispatch not yet claimed); floats are reals; IsNumber's isinstance test on numpy.number modelled by the interpreter's type table",
+    "trusted": ARITH_TRUSTED,
+}
